@@ -534,6 +534,10 @@ void World::applyFaults(const Item& op, std::vector<InFlight>& frames, std::vect
                     fault("splice");
                 }
                 break;
+            case F_ALLOCFAIL:
+                if (is("C02"))
+                    fr.allocFail = static_cast<long>(std::min<int64_t>(std::max<int64_t>(0, a), 100000));
+                break;
             case F_CORRUPT_VER:
                 if (fr.isSegmentFrame && fr.bytes.size() >= wire::CMP_HDR)
                 {
@@ -637,8 +641,16 @@ void World::deliver(InFlight& f)
     if (n)
         memcpy(buf, f.bytes.data(), n);
     const bool passNull = (n == 0 && plan.cfgGet("nullbuf", 0));
-    std::vector<lib::PacketRef> out = dec->decode(passNull ? nullptr : buf, n);
+    std::vector<lib::PacketRef> out = dec->decode(passNull ? nullptr : buf, n, f.allocFail);
     const uint64_t edges = dec->lastCallEdges();
+    if (f.allocFail >= 0)
+    {
+        decShadowSeen = dec->shadowDiverged();
+        if (dec->lastCallAllocFailed())
+            fault(dec->lastCallThrew() ? "allocation-failure-bad_alloc-thrown" : "allocation-failure-swallowed");
+        else
+            fault("allocation-failure-armed-not-reached");
+    }
     res.apiCalls++;
     if (edges)
     {
